@@ -59,7 +59,7 @@ def is_tried(F, pm, n):
     return "tail"
 
 
-@rule("R07.1", props=["C07", "C17", "C16"], floor=6, title="try_seed: shards set up from the actual key count before the store is split; geometry consumers see one consistent state")
+@rule("R07.1", props=["C07", "C17", "C16", "C08"], floor=6, title="try_seed: shards set up from the actual key count before the store is split; geometry consumers see one consistent state")
 def r07_1(ctx, rr):
     F = ctx.F()
     b = F.one(r"^func::vbuilder::VBuilder::<W, D, S, E>::try_seed$")
@@ -1151,3 +1151,64 @@ def r17_7(ctx, rr):
         rr.ob(not bad, key=key)
         if bad:
             rr.violate(key, "par_solve calls `.%s()` on `%s`: when every worker has left after a failure (or the coordinator has), the channel is closed and the operation fails -- the thread then panics and thread::scope re-raises the panic, so try_build_* panics instead of returning the error or retrying" % (par["name"], show(F, n)[:60]), F.loc(n))
+
+
+@rule("R07.13", props=["C07", "C08", "C17"], floor=1, title="the number of solver threads is at least one whenever there is a shard and the configured limit is at least one (it is the argument of ilog2 and the number of workers that consume the shards)")
+def r07_13(ctx, rr):
+    """par_solve spawns `num_threads` workers and sizes its channel with `num_threads.ilog2()`: with 0 threads the
+    build panics (or no shard is ever solved). The value must be bounded below by 1 under the standing assumptions
+    num_shards() >= 1 and max_num_threads >= 1 -- `min(num_shards, max_num_threads)` is, `.. - 1` is not."""
+    F = ctx.F()
+    asg = []
+    for b in F.fns():
+        if not b.file.endswith("func/vbuilder.rs") or not b.params or b.params[0].get("name") != "self":
+            continue
+        for n in walk(b.body):
+            if n.get("k") in ("Assign", "AssignOp") and n["l"].get("k") == "Field" and n["l"]["name"] == "num_threads":
+                asg.append((b, n))
+    if not asg:
+        raise AnchorMissing("no assignment of VBuilder::num_threads found")
+    INF = float("inf")
+
+    def bounds(t):
+        """(lower, upper) bound of a usize term under num_shards() >= 1, max_num_threads >= 1"""
+        if t[0] == "int":
+            return (t[1], t[1])
+        if t[0] == "call" and t[1].split("::")[-1] == "num_shards":
+            return (1, INF)
+        if t[0] == "field" and t[2] == "max_num_threads":
+            return (1, INF)
+        if t[0] == "op" and len(t) == 4:
+            (la, ua), (lb, ub) = bounds(t[2]), bounds(t[3])
+            if t[1] == "min":
+                return (min(la, lb), min(ua, ub))
+            if t[1] == "max":
+                return (max(la, lb), max(ua, ub))
+            if t[1] == "+":
+                return (la + lb, ua + ub)
+            if t[1] == "*":
+                return (la * lb, ua * ub if INF not in (ua, ub) else INF)
+            if t[1] == "-":
+                return (max(0, la - ub) if ub != INF else 0, ua)
+            if t[1] in ("/", ">>"):
+                return (0, ua)
+        if t[0] == "call" and t[1].split("::")[-1] in ("saturating_sub", "checked_sub", "wrapping_sub") and len(t[2]) == 2:
+            (la, ua), (lb, ub) = bounds(t[2][0]), bounds(t[2][1])
+            return (max(0, la - ub) if ub != INF else 0, ua)
+        if t[0] == "cast":
+            return bounds(t[2])
+        return (0, INF)
+    for b, n in asg:
+        rr.instances += 1
+        got = {}
+
+        def on_node(W, x, K, n=n, got=got):
+            if x is n:
+                got["t"] = W.expand(W.T.term(n["r"])) if n["k"] == "Assign" else ("unk", "op-assign")
+        Walker(F, b, on_node=on_node).run()
+        t = got.get("t", ("unk", "not reached"))
+        lo = bounds(t)[0]
+        key = "%s:num_threads>=1" % short_fn(b.key)
+        rr.ob(lo >= 1, key=key, sample={"fn": b.key, "value": tshow(t)[:120], "lower bound": lo})
+        if lo < 1:
+            rr.violate(key, "%s sets the number of solver threads to `%s`, which can be 0 with one shard or a limit of one thread (lower bound under num_shards() >= 1, max_num_threads >= 1: %s): par_solve takes ilog2 of it and spawns that many workers" % (b.key, tshow(t)[:100], lo), F.loc(n))
